@@ -3372,6 +3372,10 @@ static Token *function(Token *tok, Type *basety, VarAttr *attr) {
       error_tok(tok, "static declaration follows a non-static declaration");
     fn->is_definition = fn->is_definition || equal(tok, "{");
   } else {
+    VarScope *sc = find_var(ty->name);
+    if (sc && sc->var && !sc->var->is_local && !sc->var->is_function && scope->next == NULL)
+      error_tok(ty->name, "redeclared as a different kind of symbol");
+
     fn = new_gvar(name_str, ty);
     fn->is_function = true;
     fn->is_definition = equal(tok, "{");
@@ -3441,6 +3445,9 @@ static Token *global_variable(Token *tok, Type *basety, VarAttr *attr) {
         if (!prev->is_function && prev->init_data && !prev->is_static == !attr->is_static &&
             ty->name->len == strlen(prev->name) && !strncmp(ty->name->loc, prev->name, ty->name->len))
           error_tok(ty->name, "redefinition of '%s'", prev->name);
+
+    if (scope->next == NULL && find_func(get_ident(ty->name)))
+      error_tok(ty->name, "redeclared as a different kind of symbol");
 
     Obj *var = new_gvar(get_ident(ty->name), ty);
     var->is_definition = !attr->is_extern;
